@@ -797,3 +797,73 @@ def watchdog_selector(tier, seed):
 def _replay_watchdog_sel(f):
     line = f['input']['commands'][0]
     return _run(_watchdog_case(line, dict(WATCHDOG_LINES)[line])) is None
+
+
+# ---------------------------------------------------------------------------------------------------------------------
+# the helper reads slowly: its stdin pipe is nearly full when a reply longer than PIPE_BUF is written, so the write is
+# PARTIAL and the rest goes out later -- the byte stream the helper finally reads is the one it reads when the pipe is empty
+def _raw(fd):
+    out = b''
+    try:
+        while True:
+            d = os.read(fd, 65536)
+            if not d:
+                break
+            out += d
+    except BlockingIOError:
+        pass
+    return out
+
+
+async def _slow_reader_case(line, free):
+    inp = {'commands': [line, SENTINEL], 'free_octets_in_the_pipe': free}
+
+    async def run(prefill):
+        w = _Api()
+        try:
+            os.set_blocking(w.ans_w, False)
+            filler = 0
+            if prefill:
+                try:
+                    while True:
+                        filler += os.write(w.ans_w, b'x' * 4096)
+                except BlockingIOError:
+                    pass
+                filler -= len(os.read(w.ans_r, free))
+            w.deliver((line + '\n' + SENTINEL + '\n').encode())
+            got = b''
+            for _ in range(200):
+                await w.iterate()
+                got += _raw(w.ans_r)
+                if w.idle():
+                    got += _raw(w.ans_r)
+                    break
+            return got[filler:] if got[:filler] == b'x' * filler else None
+        finally:
+            w.close()
+
+    with _quiet():
+        want = await run(False)
+        got = await run(True)
+    if got is None:
+        return {'what': 'harness: the filler did not come back first', 'input': inp, 'harness': True}
+    if got != want:
+        k = next((i for i in range(min(len(got), len(want))) if got[i] != want[i]), min(len(got), len(want)))
+        return {'what': f'with the pipe nearly full the helper reads another byte stream than with an empty pipe (first difference at octet {k} of {len(want)}): a reply written in two parts is not put back where it was', 'input': inp, 'around': got[max(0, k - 30) : k + 60].decode('ascii', 'replace')}
+    return None
+
+
+@bounded('C14', 'slow-reader')
+def slow_reader(tier, seed):
+    cases = [(line, free) for line in ('system help json', 'system help') for free in (1, 100, 2000, 4000, 4331)]
+    fails = []
+    for c in cases:
+        f = _run(_slow_reader_case(*c))
+        if f:
+            fails.append(f)
+    return {'evaluations': len(cases), 'distinct_nontrivial': len(cases), 'bound': 'the two longest replies (`system help`, `system help json`: more than PIPE_BUF octets) followed by an unknown command, written to a helper whose stdin pipe has 1 .. 4331 octets of room left: the stream read is the stream read from an empty pipe', 'rule': 'one case = (command, room left)', 'samples': [{'commands': ['system help json'], 'free_octets_in_the_pipe': 2000}], 'failures': fails}
+
+
+@replayer('C14', 'slow-reader')
+def _replay_slow(f):
+    return _run(_slow_reader_case(f['input']['commands'][0], f['input']['free_octets_in_the_pipe'])) is None
